@@ -43,6 +43,7 @@ def atom_specs(tier):
         for v in ("3.7", "3.8"):
             out.append(("python_version", op, v, False))
     out += [("python_version", "in", "3.7, 3.8", False), ("python_version", "not in", "3.7, 3.8", False),
+            ("python_version", "in", "3.8", False), ("python_version", "not in", "3.7", False),
             ("python_version", ">", "3.8", True), ("python_version", "<=", "3.7", True),
             ("python_version", ">", "3", False), ("python_version", ">=", "3", False), ("python_version", "<", "3.10", False),
             ("python_version", "<", "4.0", False), ("python_version", "!=", "3.7.0", False),
